@@ -121,7 +121,7 @@ impl Property for C07 {
                     1 => textbook(tok, TexCfg::default()).prop_map(|n| MNode::math(vec![n])),
                 ];
                 let prefs = (any::<bool>(), sel(&["Grade1", "Grade2"]), any::<bool>(), any::<bool>()).prop_map(|(spaces, start, drop, short)| vec![("UEB_UseSpacesAroundAllOperators".to_string(), spaces.to_string()), ("UEB_StartMode".to_string(), start.to_string()), ("Vietnam_UseDropNumbers".to_string(), drop.to_string()), ("LaTeX_UseShortName".to_string(), short.to_string())]);
-                let nav = proptest::collection::vec(sel(&NAV_COMMANDS[..17]).prop_map(|s| s.to_string()), 0..3);
+                let nav = proptest::collection::vec(prop_oneof![4 => sel(&NAV_COMMANDS[..17]).prop_map(|s| s.to_string()), 1 => (0usize..30).prop_map(|p| format!("@route:{}", p))], 0..3);
                 // the guarantee is about the elements and characters the code covers: no merror (no braille rule),
                 // and every token character -- after mathvariant restyling -- is ASCII alphanumeric or a key of the tables
                 let covered2 = covered_for_filter.clone();
@@ -202,6 +202,11 @@ impl Property for C07 {
             Err(Fail::Panic(_)) => classes.push("braille-panic (C08)".into()),
         }
         for c in &case.nav {
+            // "@route:<cell>" = the braille display's cursor-routing key (a pure query, C20)
+            if let Some(pos) = c.strip_prefix("@route:") {
+                let _ = api::node_from_braille_pos(pos.parse().unwrap_or(0));
+                continue;
+            }
             let _ = api::nav_cmd(c);
             if let Ok(b) = api::nav_braille() {
                 classes.push("nav-braille".into());
@@ -222,6 +227,17 @@ impl Property for C07 {
                         }
                     }
                     viols.push((format!("{}:{}", k, case.code), format!("get_navigation_braille after {} returned {}\n{}", c, what, ctx(&b))));
+                }
+            }
+        }
+        // the same request again after navigation and cursor routing: the alphabet and the highlight rule hold for every call
+        if !case.nav.is_empty() && viols.is_empty() {
+            if let Ok(b) = api::braille(&id) {
+                let judged: String = b.chars().filter(|c| !passthrough.contains(c)).collect();
+                if let Some((k, what)) = judge_braille(&case.code, &judged, may_highlight) {
+                    if !(k == "cell-code:unexpected-highlight" && b.contains('\u{28CD}')) {
+                        viols.push((format!("{}:{}:after-navigation", k, case.code), format!("get_braille after {:?} returned {}\n{}", case.nav, what, ctx(&b))));
+                    }
                 }
             }
         }
